@@ -86,25 +86,25 @@ Section Inst.
 
   (* ---- whole-file tool ---- *)
   Section Whole.
-    Variable mu : nat -> nat.                      (* message size of the block at a file offset (variable rate) *)
-    Hypothesis mu_ok : forall c, 1 <= mu c <= mb.
-    Hypothesis track_pos : forall c, 1 <= hlen + (mb - mu c).
+    Variable mu : nat -> nat -> nat.               (* file size -> file offset -> message size of the block there (variable rate) *)
+    Hypothesis mu_ok : forall s c, 1 <= mu s c <= mb.
+    Hypothesis track_pos : forall s c, 1 <= hlen + (mb - mu s c).
     Variable window : nat.
 
     (* the block stage reads the track from the ecc file at [t, e) and leaves the cursor at e *)
     Definition blocksW_pipe (d : list byte) (t e : nat) (z : Z) (f : list byte) : bres * nat :=
-      (PipelineClean.bres_of (Pipeline.sa_file (option byte) hash pchk bdec o fast mu mb hlen f (skipn t d) (e - t)), e).
-    Definition track_w (f : list byte) : list byte := Pipeline.track_of (Pipeline.sa_gen hash mu penc f).
+      (PipelineClean.bres_of (Pipeline.sa_file (option byte) hash pchk bdec o fast (mu (Z.to_nat z)) mb hlen f (skipn t d) (e - t)), e).
+    Definition track_w (f : list byte) : list byte := Pipeline.track_of (Pipeline.sa_gen hash (mu (length f)) penc f).
 
     Lemma blocksW_pipe_clean f d t e : sub d t e = track_w f -> fst (blocksW_pipe d t e (zlen f) f) = BClean.
     Proof.
-      intros S. unfold blocksW_pipe. cbn [fst]. unfold sub in S.
+      intros S. unfold blocksW_pipe, zlen. rewrite Nat2Z.id. cbn [fst]. unfold sub in S.
       assert (D : skipn t d = track_w f ++ skipn (e - t) (skipn t d)) by (rewrite <- S; symmetry; apply firstn_skipn).
       assert (L : length (track_w f) <= e - t) by (rewrite <- S; apply firstn_le_length).
       rewrite D. unfold track_w in *.
       destruct (PipelineClean.sa_file_clean (option byte) hash pchk bdec penc o fast (CodecInst.pwf mb) mb hlen
-                  (CodecInst.pipe_chk_enc algo mb) hash_len (CodecInst.pipe_enc_len algo mb) mu
-                  (fun c => proj1 (mu_ok c)) (fun c => proj2 (mu_ok c)) (fun k m H1 H2 => conj H1 H2) track_pos
+                  (CodecInst.pipe_chk_enc algo mb) hash_len (CodecInst.pipe_enc_len algo mb) (mu (length f))
+                  (fun c => proj1 (mu_ok (length f) c)) (fun c => proj2 (mu_ok (length f) c)) (fun k m H1 H2 => conj H1 H2) (track_pos (length f))
                   f (skipn (e - t) (skipn t d)) (e - t) L) as (A & _).
       unfold PipelineClean.bres_of. rewrite A. reflexivity.
     Qed.
